@@ -46,6 +46,10 @@ void harness(void) {
 	if (res != KSI_OK && g16.na) REACH("left link without sibling hash: error");
 	if (res != KSI_OK && g16.na && g16.calls > 4) REACH("left link without sibling hash beyond the fourth link");
 	if (res == KSI_INVALID_ARGUMENT && g16.calls == 0) REACH("refused");
+	/* (audit builderY, dfcc __invalid_ptr sharing) outcomes of the replaced getNextLink at a LATER loop iteration than the first */
+	if (res == KSI_OK && !g_lift_st && status != NULL && g16.lefts >= 1) REACH("false after one or more left links (list exhausted at a later iteration)");
+	if (res != KSI_OK && g16.na && g16.lefts >= 2) REACH("a later left link without sibling hash: error");
+	if (res == KSI_OK && g_lift_st && g16.lefts >= 2) REACH("true at a later left link");
 }
 #endif
 #ifdef H_lift_ccs_getNextLink
